@@ -13,13 +13,17 @@ var svcPortPool = []int{80, 81, 8080, 8081, 53, 443}
 // GenIngressWorld draws a world with Services, Ingresses and Routes on top of an NP (and optionally
 // ingress-only admin policy) world. Domain restrictions of DESIGN C10 are kept by construction.
 func GenIngressWorld(t *rapid.T, admin bool) *World {
-	w := GenWorld(t, GenCfg{Admin: admin && rapid.Bool().Draw(t, "ingadmin"), MaxWl: 4, MaxNP: 3, MaxANP: 3, NoNamedRisk: true})
-	// admin egress rules could select the fake ingress-controller pod: not generated (statement is silent on them)
-	for i := range w.ANPs {
-		w.ANPs[i].Egress = nil
-	}
-	if w.BANP != nil {
-		w.BANP.Egress = nil
+	omitNs := rapid.IntRange(0, 2).Draw(t, "ingomit") == 0 // namespace "default" is in the world, some of its documents omit the field
+	w := GenWorld(t, GenCfg{Admin: admin && rapid.Bool().Draw(t, "ingadmin"), MaxWl: 4, MaxNP: 3, MaxANP: 3, NoNamedRisk: true, OmitNs: omitNs})
+	// admin egress rules may select the fake ingress-controller pod (a pod without labels in a namespace that carries its
+	// name label only): C02's semantics apply to it as to any pod. Kept in half of the worlds.
+	if rapid.Bool().Draw(t, "ingdropadminegress") {
+		for i := range w.ANPs {
+			w.ANPs[i].Egress = nil
+		}
+		if w.BANP != nil {
+			w.BANP.Egress = nil
+		}
 	}
 	// make container ports likely to be hit by service target ports
 	for i := range w.Workloads {
@@ -252,6 +256,27 @@ func GenIngressWorld(t *rapid.T, admin bool) *World {
 			}
 		}
 		w.Routes = append(w.Routes, r)
+	}
+	// documents of namespace "default" written without metadata.namespace (workloads, Services, Ingresses, Routes)
+	if omitNs {
+		if w.OmitNs == nil {
+			w.OmitNs = map[string]bool{}
+		}
+		for i := range w.Services {
+			if w.Services[i].Ns == "default" && rapid.Bool().Draw(t, fmt.Sprintf("ingomitsvc%d", i)) {
+				w.OmitNs["svc/"+w.Services[i].Name] = true
+			}
+		}
+		for i := range w.Ingresses {
+			if w.Ingresses[i].Ns == "default" && rapid.Bool().Draw(t, fmt.Sprintf("ingomiting%d", i)) {
+				w.OmitNs["ing/"+w.Ingresses[i].Name] = true
+			}
+		}
+		for i := range w.Routes {
+			if w.Routes[i].Ns == "default" && rapid.Bool().Draw(t, fmt.Sprintf("ingomitrt%d", i)) {
+				w.OmitNs["rt/"+w.Routes[i].Name] = true
+			}
+		}
 	}
 	return w
 }
